@@ -61,8 +61,10 @@ type DoneRec struct {
 }
 
 type kernArgs struct {
-	In  driver.Ptr
-	Out driver.Ptr
+	In    driver.Ptr
+	Out   driver.Ptr
+	Magic uint32 // read by sload2
+	Pad   uint32
 }
 
 func ldsBytesFor(c Case) int { return (c.NWf + 2) * 256 }
@@ -85,11 +87,11 @@ func launch(d *driver.Driver, c Case, ws []uint32, timeoutMs int, v5 bool, stop 
 		if v5 {
 			co.Version = insts.CodeObjectV5
 		}
-		gIn := d.AllocateMemory(ctx, uint64(4*(n+64)))
+		gIn := d.AllocateMemory(ctx, uint64(4*(16*n+64)))
 		gOut := d.AllocateMemory(ctx, uint64(4*n))
-		d.MemCopyH2D(ctx, gIn, inputData(n+64))
+		d.MemCopyH2D(ctx, gIn, inputData(16*n+64))
 		d.MemCopyH2D(ctx, gOut, make([]uint32, n))
-		args := kernArgs{In: gIn, Out: gOut}
+		args := kernArgs{In: gIn, Out: gOut, Magic: 0xBEEF}
 		d.LaunchKernel(ctx, co, [3]uint32{uint32(n), 1, 1}, [3]uint16{uint16(64 * c.NWf), 1, 1}, &args)
 		if stop != nil {
 			stop()
@@ -277,8 +279,10 @@ func (r *recorder) Func(ctx sim.HookCtx) {
 		}
 		sort.Strings(ids)
 		for _, id := range ids {
-			if !busy[id] {
-				x := r.pendFin[id]
+			x := r.pendFin[id]
+			wf := r.wfs[x[0]]
+			stillIssuing := wf.State == wavefront.WfRunning && wf.DynamicInst() != nil && wf.DynamicInst().ID == id
+			if !busy[id] && !stillIssuing {
 				evs = append(evs, Ev{E: "mfin", W: x[0], K: []string{"s", "f"}[x[1]]})
 				delete(r.pendFin, id)
 			}
@@ -354,12 +358,15 @@ type refusingPort struct {
 	tries   map[string]int
 	refused *int
 	wake    func() // what NotifyPortFree does when a full port drains: tick the component again
+	cycle   func() int
+	fullIn  int // cycle in which a Send was refused: like a full buffer, the port refuses for the rest of that cycle
 }
 
 func (p *refusingPort) Send(msg sim.Msg) *sim.SendError {
 	if m, ok := msg.(*protocol.WGCompletionMsg); ok && len(m.RspTo) > 0 {
 		id := m.RspTo[0]
-		if p.tries[id] < p.k {
+		if p.tries[id] < p.k || p.fullIn == p.cycle() {
+			p.fullIn = p.cycle()
 			p.tries[id]++
 			*p.refused++
 			p.wake()
@@ -405,7 +412,8 @@ func runTiming(c Case, ws []uint32, timeoutMs int) *TimingObs {
 	s.GetEngine().AcceptHook(r)
 	theCU.ToACE.AcceptHook(portHook{r})
 	if c.Refuse > 0 {
-		theCU.ToACE = &refusingPort{Port: theCU.ToACE, k: c.Refuse, tries: map[string]int{}, refused: &obs.Refused, wake: theCU.TickLater}
+		theCU.ToACE = &refusingPort{Port: theCU.ToACE, k: c.Refuse, tries: map[string]int{}, refused: &obs.Refused, wake: theCU.TickLater,
+			cycle: func() int { return r.cycle }, fullIn: -1}
 	}
 	d := s.GetComponentByName("Driver").(*driver.Driver)
 	d.Run()
